@@ -110,7 +110,10 @@ func (l *Lexer) NextToken() token.Token {
 		tok := l.bracesToken(token.LBRACES, "{{")
 
 		if l.char == '-' && l.peekChar() == '-' {
-			l.skipComment()
+			if terminated := l.skipComment(); !terminated {
+				return l.newToken(token.ILLEGAL, "{{--")
+			}
+
 			return l.NextToken()
 		}
 
@@ -592,15 +595,23 @@ func (l *Lexer) skipWhitespace() {
 	}
 }
 
-func (l *Lexer) skipComment() {
+// skipComment returns false when the end of
+// input comes before the closing "--}}"
+func (l *Lexer) skipComment() bool {
 	for l.char != 0 && !strings.HasPrefix(l.input[l.pos:], "--}}") {
 		l.readChar()
 	}
 
 	l.isHTML = true
 
+	if l.char == 0 {
+		return false
+	}
+
 	// skip "--}}"
-	for i := 0; i < 4 && l.char != 0; i++ {
+	for i := 0; i < 4; i++ {
 		l.readChar()
 	}
+
+	return true
 }
